@@ -114,8 +114,14 @@ def source_override(units, srcdir):
             if a.startswith("-I") and os.path.normpath(a[2:]) == os.path.normpath(oldsrc):
                 a = "-I" + srcdir
             nflags.append(a)
-        # headers of the copy first
-        out[n] = (nf, ["-I" + srcdir] + nflags, d)
+        # headers of the copy first (src/ and, when the copy has them, the public / private header roots)
+        root = os.path.dirname(os.path.normpath(srcdir))
+        extra = ["-I" + srcdir]
+        if os.path.isdir(os.path.join(root, "dispatch")):
+            extra += ["-I" + root]
+        if os.path.isdir(os.path.join(root, "private")):
+            extra += ["-I" + os.path.join(root, "private")]
+        out[n] = (nf, extra + nflags, d)
     return out
 
 
